@@ -294,6 +294,7 @@ def run(tier):
             return lit[0] if lit else None
         return None
     writes = []      # (function qname, target parameter, sources, location)
+    setonce = []
     for g in funcs:
         refs, vals = {}, {}
         for s_, n in g.stmts.items():
@@ -355,7 +356,28 @@ def run(tier):
                 t = pname(g, s_)
                 if t:
                     writes.append((g.qname, t, sources(n["args"][1]), g.short_loc(s_)))
+                    # 'set once if absent' with a computed value, in a function that runs during an attempt
+                    pmg = g.parent_map()
+                    q_, once = s_, False
+                    while q_ in pmg:
+                        q_ = pmg[q_]
+                        if g.stmts[q_]["k"] == "IfStmt" and "containsParameter" in g.text(g.stmts[q_]["cond"]) and t in g.text(g.stmts[q_]["cond"]).replace('"', ""):
+                            once = True
+                    if once:
+                        setonce.append((g.qname, t, sources(n["args"][1]), g.short_loc(s_)))
     rep.count("writes to named parameters of the study state", len(writes))
+    seen_once = set()
+    for q, t, src, loc in setonce:
+        fn = q.rsplit("::", 1)[-1]
+        if fn in ("postConvergence", "completeInitialisation", "initializeCurrentState", "initializeWorkSpace") or src <= {"<const>"}:
+            continue
+        key = "SET-ONCE-IN-ATTEMPT@%s#%s" % (q, t)
+        if key in seen_once:
+            continue
+        seen_once.add(key)
+        rep.fail(key, "%s: %s creates the study parameter '%s' when it is absent, from a value computed during the attempt; neither revert() nor "
+                 "prepare() removes it: when the first attempt is rejected, the value computed in that rejected attempt is used by every later "
+                 "step (the run differs from one performed directly with the accepted steps)" % (rel(loc), q, t))
     writers = {}
     for q, t, src, loc in writes:
         writers.setdefault(t, set()).add(q.rsplit("::", 1)[-1])
